@@ -3394,16 +3394,10 @@ class Value(WithArithmeticMethods, _protocols.ValueProtocol, _display.PrettyPrin
         # When the replacement value is already an output of the graph, renaming it
         # to the name of this value will cause name conflicts. It is better to let
         # the user handle the renaming explicitly and insert identity nodes if needed.
+        self._check_replace_all_uses_with(replacement, replace_graph_outputs)
         if self.is_graph_output():
             graph = self.graph
             assert graph is not None
-
-            if not replace_graph_outputs:
-                raise ValueError(
-                    f"{self!r} is an output of graph {graph.name!r}. "
-                    "Set replace_graph_outputs=True or replace the graph output frist before "
-                    "calling replace_all_uses_with."
-                )
 
             for i, output in enumerate(graph.outputs):
                 if output is self:
@@ -3411,6 +3405,23 @@ class Value(WithArithmeticMethods, _protocols.ValueProtocol, _display.PrettyPrin
 
         for user_node, index in self.uses():
             user_node.replace_input_with(index, replacement)
+
+    def _check_replace_all_uses_with(
+        self, replacement: Value, replace_graph_outputs: bool
+    ) -> None:
+        """Raise if :meth:`replace_all_uses_with` would be rejected. Does not modify anything."""
+        if not self.is_graph_output():
+            return
+        graph = self.graph
+        assert graph is not None
+        if not replace_graph_outputs:
+            raise ValueError(
+                f"{self!r} is an output of graph {graph.name!r}. "
+                "Set replace_graph_outputs=True or replace the graph output frist before "
+                "calling replace_all_uses_with."
+            )
+        # The replacement will become an output of the graph
+        graph.outputs._check_value(replacement)  # type: ignore[attr-defined]  # pylint: disable=protected-access
 
     def merge_shapes(self, other: Shape | None, /) -> None:
         """Merge the shape of this value with another shape to update the existing shape in-place.
